@@ -271,3 +271,11 @@ def check(ctx):
         elif err > Fraction(1, 10**12) * abs(want) and abs(want) >= Fraction(1, 10**6):
             ctx.violation("elem-accuracy:" + text, text, "%.17g (mpmath)" % float(want), "%.17g" % float(got), "execute(%r)" % text)
     ctx.cov["accuracy_tests_vs_mpmath"] = tested
+
+
+# ---- refinement lemmas of the unified pipeline model for this property (Props/Pipeline2.lean): the fragment this check's
+# theorems are about IS what the whole-program model computes on the fragment's sub-language
+import pipeline as _pl
+LEAN_MODULES = LEAN_MODULES + [m for m in _pl.LEAN_MODULES2 if m not in LEAN_MODULES]
+THEOREMS = THEOREMS + [t for t in _pl.THEOREMS2.get(ID, []) if t not in THEOREMS]
+GEN = GEN + [g for g in _pl.GEN if g not in GEN]
